@@ -457,6 +457,40 @@ func genC08(p *Plan, tier string) {
 			p.Ops = append(p.Ops, &Op{Kind: "http", ID: "K", Req: raw(b2), MapOrder: mo, Expect: &Expect{C08: metaA, SameAs: "A"}})
 		}
 	}
+	// S: the switch spelt another way (0, "false", null / 1, "true"): a service may refuse such a
+	// request; if it accepts it, a falsy spelling on an enabled entry changes nothing, and a truthy
+	// one is the entry left out
+	if len(enabledIdx) > 0 && r.Bool(0.5) {
+		k := enabledIdx[r.Intn(len(enabledIdx))]
+		falsy := r.Bool(0.6)
+		var arr, without []interface{}
+		for i, x := range list {
+			e := CloneJ(x.e).(map[string]interface{})
+			if i == k {
+				if falsy {
+					e["disabled"] = []interface{}{0.0, "false", nil, "0", "no"}[r.Intn(5)]
+				} else {
+					e["disabled"] = []interface{}{1.0, "true", "1"}[r.Intn(3)]
+				}
+			} else {
+				without = append(without, CloneJ(x.e))
+			}
+			arr = append(arr, e)
+		}
+		if without == nil {
+			without = []interface{}{}
+		}
+		bs := CloneJ(base).(map[string]interface{})
+		bs["biases"] = arr
+		if falsy {
+			p.Ops = append(p.Ops, &Op{Kind: "http", ID: "S", Req: raw(bs), MapOrder: mo, Expect: &Expect{Class: "any", SameAsIfOK: "A"}})
+		} else {
+			bw := CloneJ(base).(map[string]interface{})
+			bw["biases"] = without
+			p.Ops = append(p.Ops, &Op{Kind: "http", ID: "Sw", Req: raw(bw), MapOrder: mo})
+			p.Ops = append(p.Ops, &Op{Kind: "http", ID: "S", Req: raw(bs), MapOrder: mo, Expect: &Expect{Class: "any", SameAsIfOK: "Sw"}})
+		}
+	}
 	// B: disabled entries removed and other disabled ones inserted: byte-identical
 	{
 		var l []ent
@@ -1049,6 +1083,7 @@ func Variant(p *Plan) *Plan {
 		addDep(i, op.PrefixOf)
 		if e := op.Expect; e != nil {
 			addDep(i, e.SameAs)
+			addDep(i, e.SameAsIfOK)
 			addDep(i, e.SameResultAs)
 			addDep(i, e.PrefixOf)
 			if e.C08 != nil {
